@@ -224,13 +224,128 @@ fn clip_cases(seed: u64) -> Vec<ClipCase> {
     out
 }
 
+// ---------------------------------------------------------------- scaling / offsetting adaptors over the full range
+
+/// The trees above keep amplitudes small so that no result leaves the range; here the gain and offset adaptors are
+/// driven with full-range values of every format (two channels) and gains in [0, 1] / zero offsets, and compared with
+/// the Frame operation applied to the same frame (C03's subject).
+#[derive(Clone, Debug, Serialize, Deserialize)]
+pub struct WideCase {
+    pub kind: vp_core::fmt::Kind,
+    /// raw values / bit patterns, consumed in pairs (two channels)
+    pub vals: Vec<i128>,
+    /// gains for channel 0 / 1 as f64 (converted to the format's Float)
+    pub gains: [f64; 2],
+}
+
+macro_rules! wide_typed {
+    ($T:ty, $c:expr, $st:expr) => {{
+        #[allow(unused_imports)]
+        use dasp_frame::Frame;
+        use vp_core::fmt::{Fmt, Kind, Val};
+        type S = $T;
+        let (c, st): (&WideCase, &mut Stats) = ($c, $st);
+        let r: CheckResult = (|| {
+        let k = <S as Fmt>::KIND;
+    let fl = |g: f64| -> <S as dasp_sample::Sample>::Float {
+        match k.float_companion() {
+            Kind::F32 => <<S as dasp_sample::Sample>::Float as Fmt>::from_val(Val::F32(g as f32)),
+            _ => <<S as dasp_sample::Sample>::Float as Fmt>::from_val(Val::F64(g)),
+        }
+    };
+    ensure!(c.gains.iter().all(|g| *g >= 0.0 && *g <= 1.0), "bad case: gain outside [0, 1]");
+    let (g0, g1) = (fl(c.gains[0]), fl(c.gains[1]));
+    let frames: Vec<[S; 2]> = c.vals.chunks(2).filter(|p| p.len() == 2).map(|p| [<S as Fmt>::from_val(clip_dec(k, p[0])), <S as Fmt>::from_val(clip_dec(k, p[1]))]).collect();
+    let n = frames.len();
+    let src = || dasp_signal::from_iter(frames.clone());
+    let zero_s = <<S as dasp_sample::Sample>::Signed as dasp_sample::Sample>::EQUILIBRIUM;
+    let a: Vec<[S; 2]> = src().scale_amp(g0).take(n).collect();
+    let b: Vec<[S; 2]> = src().scale_amp_per_channel([g0, g1]).take(n).collect();
+    let m: Vec<[S; 2]> = src().mul_amp(dasp_signal::gen(move || [g0, g1])).take(n).collect();
+    let o: Vec<[S; 2]> = src().offset_amp(zero_s).take(n).collect();
+    let p: Vec<[S; 2]> = src().offset_amp_per_channel([zero_s, zero_s]).take(n).collect();
+    let d: Vec<[S; 2]> = src().add_amp(dasp_signal::equilibrium::<[<S as dasp_sample::Sample>::Signed; 2]>()).take(n).collect();
+    let same = |x: [S; 2], y: [S; 2]| (0..2).all(|ch| match (x[ch].to_val(), y[ch].to_val()) {
+        (Val::I(a), Val::I(b)) => a == b,
+        (Val::F32(a), Val::F32(b)) => a.to_bits() == b.to_bits(),
+        (Val::F64(a), Val::F64(b)) => a.to_bits() == b.to_bits(),
+        _ => false,
+    });
+    st.nt(true);
+    st.class("gain / offset adaptors over the full value range");
+    for (i, f) in frames.iter().enumerate() {
+        let checks: [(&str, [S; 2], [S; 2]); 6] = [
+            ("scale_amp", a[i], f.scale_amp(g0)),
+            ("scale_amp_per_channel", b[i], f.mul_amp([g0, g1])),
+            ("mul_amp", m[i], f.mul_amp([g0, g1])),
+            ("offset_amp(0)", o[i], f.offset_amp(zero_s)),
+            ("offset_amp_per_channel([0, 0])", p[i], f.add_amp([zero_s, zero_s])),
+            ("add_amp(equilibrium)", d[i], f.add_amp([zero_s, zero_s])),
+        ];
+        for (name, got, exp) in checks {
+            ensure!(same(got, exp), "[{}; 2] frame {} = {:?}: {} with gains {:?} yields {:?}, the frame operation gives {:?}", k.name(), i, f, name, c.gains, got, exp);
+        }
+    }
+    Ok(())
+        })();
+        r
+    }};
+}
+
+pub fn check_wide(c: &WideCase, st: &mut Stats) -> CheckResult {
+    use dasp_sample::{I24, I48, U24, U48};
+    use vp_core::fmt::Fmt;
+    macro_rules! go { ($($T:ty),*) => { $( if c.kind == <$T as Fmt>::KIND { return wide_typed!($T, c, st); } )* }; }
+    go!(i8, i16, I24, i32, I48, i64, u8, u16, U24, u32, U48, u64, f32, f64);
+    Err("bad case: unknown format".into())
+}
+
+fn wide_cases(seed: u64) -> Vec<WideCase> {
+    use vp_core::fmt::{boundary_raws, Kind, INT_KINDS};
+    let mut out = Vec::new();
+    let mut s = seed | 1;
+    let mut xs = move || {
+        s ^= s << 13;
+        s ^= s >> 7;
+        s ^= s << 17;
+        s
+    };
+    let gains: [[f64; 2]; 7] = [[1.0, 1.0], [1.0, 0.5], [0.5, 1.0], [0.0, 1.0], [0.25, 0.75], [0.999, 0.001], [0.0, 0.0]];
+    for &k in &INT_KINDS {
+        let mut vals = boundary_raws(k);
+        for _ in 0..60 {
+            let span = (k.max_raw() - k.min_raw() + 1) as u128;
+            vals.push(k.min_raw() + (((xs() as u128) << 64 | xs() as u128) % span) as i128);
+        }
+        // odd values just above a power of two: not representable in a narrower float
+        for b in 8..k.bits() - 1 {
+            vals.push(k.eq_raw() + (1i128 << b) + 1);
+            vals.push(k.eq_raw() - (1i128 << b) - 1);
+        }
+        if vals.len() % 2 == 1 {
+            vals.push(k.eq_raw());
+        }
+        for g in gains {
+            out.push(WideCase { kind: k, vals: vals.clone(), gains: g });
+        }
+    }
+    for (k, mk) in [(Kind::F32, 0u8), (Kind::F64, 1u8)] {
+        let enc = |x: f64| if mk == 0 { (x as f32).to_bits() as i128 } else { x.to_bits() as i128 };
+        let vals: Vec<i128> = [0.0, -0.0, 1.0, -1.0, 0.5, -0.5, 0.999, -0.999, 3.5, -3.5, 1e-30, -1e-30, 1e30, -1e30, 0.1, 1.0 / 3.0].iter().map(|x| enc(*x)).collect();
+        for g in gains {
+            out.push(WideCase { kind: k, vals: vals.clone(), gains: g });
+        }
+    }
+    out
+}
+
 pub fn run(ctx: &mut Ctx) {
     ctx.set_rule(
         "cases are (frame type out of 8, adaptor tree, number of frames pulled); trees are generated recursively to depth 4 (thorough 7) from probe leaves (finite 0..40 frames or infinite) and the \
          adaptors map, scale_amp, offset_amp, the per-channel variants, clip_amp, inspect, delay(k), by_ref (first m frames pulled through a throw-away adaptor built on a borrow), zip_map, add_amp, mul_amp; \
          amplitudes, offsets and gains are small by construction so no result leaves the range; non-trivial: >= 2 adaptors, or an integer/unsigned frame type, or a delay / by_ref node",
     );
-    ctx.assume("frame k must equal the dasp Frame operation applied to frame k of the child model(s) (the Frame operations themselves are C03's subject); clip_amp is compared with an independent clamp(amp, -t, t); every probe's pull counter is compared after every output frame");
+    ctx.assume("frame k must equal the dasp Frame operation applied to frame k of the child model(s) (the Frame operations themselves are C03's subject); clip_amp is compared with an independent clamp(amp, -t, t); the gain / offset adaptors are additionally driven with full-range values of all 14 formats (gains in [0, 1], zero offsets) and compared with the Frame operation on the same frame; every probe's pull counter is compared after every output frame");
     for c in ["binary node present", "by_ref present", "delay with k > 0 present", "integer or unsigned frame type"] {
         ctx.require_class(c);
     }
@@ -271,4 +386,8 @@ pub fn run(ctx: &mut Ctx) {
     ctx.require_class("clip_amp over the full value range");
     let cc = clip_cases(ctx.sub_seed("clip"));
     ctx.enumerate("clip-amp-full-range", false, cc.into_iter(), check_clip);
+    // gain / offset adaptors on full-range values of every format (results stay in range: gains in [0, 1], zero offsets)
+    ctx.require_class("gain / offset adaptors over the full value range");
+    let wc = wide_cases(ctx.sub_seed("wide"));
+    ctx.enumerate("gain-offset-adaptors-full-range", false, wc.into_iter(), check_wide);
 }
